@@ -21,6 +21,7 @@ What is PROVED here (`_partial`), for all programs, all histories, no bound on a
     This hypothesis is the ONLY reason for the `_partial` suffix on programs of the covered kinds.
 -/
 import SgVerif.C14.Main
+import SgVerif.C14.Fixed
 namespace SgVerif.C14
 open SgVerif.McRef
 
@@ -129,5 +130,60 @@ example : (orun (initO barProg) [0, 1, 1, 0]).map (fun r => (ostuck r.1, allDone
 /-- an incomplete group and an empty semaphore: the run is stuck, the LTS state is a (reachable) deadlock -/
 example : (orun (initO barStuck) [0, 1]).map (fun r => (ostuck r.1, isDeadlock r.1.s, r.2))
     = some (true, true, [(0, 0), (1, 0)]) := by decide
+
+/-! ### with the proposed fix (`wait_for` tests `granted_`): the full-strength statements, no `NoRelock`
+
+`ostepFixed` / `orunFixed` (C14/Fixed.lean) = the same machine with `Sync.Mutex.lockFixed` (the code after
+props/C14/fix_series/01-mutex-relock.patch) for `Mutex::lock`; it IS the current machine on every step that is not a
+re-lock by the owner (`fixed_machine_agrees_without_relock`).  These theorems speak about the code as it would be after
+the patch — not about the current code, for which the `_partial` ones above and the counterexample hold. -/
+
+/-- fixed code: one simcall = the atomic composition of its split transitions, for EVERY step (a re-lock by the owner
+included: MUTEX_ASYNC_LOCK queues the caller behind itself and its MUTEX_WAIT is not enabled) -/
+theorem single_simcall_is_atomic_split_fixed {o o' : OState} {i : Nat} {path : Path} (hR : R o) (hI : Inv o)
+    (h : ostepFixed o i = some (o', path)) : execPath o.s path = some o'.s ∧ R o' ∧ Inv o' :=
+  ostepFixed_sound hR hI h
+
+/-- fixed code: every accepted history maps to a path of the reference LTS — no hypothesis on the history -/
+theorem engine_run_reachable_fixed (p : Program) (hp : SyncOnly p) (h : List Nat) {o : OState} {path : Path}
+    (hr : orunFixed (initO p) h = some (o, path)) :
+    execPath (initState p) path = some o.s ∧ Reachable p o.s := by
+  obtain ⟨hR, hI⟩ := init_sound p hp
+  obtain ⟨e, _, _⟩ := orunFixed_sound h hR hI hr
+  exact ⟨e, path, e⟩
+
+/-- fixed code: a stuck world is a reachable deadlock state of the LTS -/
+theorem deadlock_report_sound_fixed (p : Program) (hp : SyncOnly p) (h : List Nat) {o : OState} {path : Path}
+    (hr : orunFixed (initO p) h = some (o, path)) (hs : ostuck o = true) :
+    isDeadlock o.s = true ∧ Reachable p o.s := by
+  obtain ⟨hR, hI⟩ := init_sound p hp
+  obtain ⟨e, _, hI'⟩ := orunFixed_sound h hR hI hr
+  exact ⟨stuck_is_deadlock hI' hs, path, e⟩
+
+/-- fixed code: a program with no reachable deadlock never gets stuck -/
+theorem no_reachable_deadlock_never_reported_fixed (p : Program) (hp : SyncOnly p)
+    (hnd : ∀ s, Reachable p s → isDeadlock s = false) (h : List Nat) {o : OState} {path : Path}
+    (hr : orunFixed (initO p) h = some (o, path)) : ostuck o = false := by
+  cases hs : ostuck o with
+  | false => rfl
+  | true =>
+    obtain ⟨hd, hreach⟩ := deadlock_report_sound_fixed p hp h hr hs
+    rw [hnd o.s hreach] at hd
+    cases hd
+
+/-- the fix touches nothing else: on a step that is not a re-lock by the owner both machines do the same -/
+theorem fixed_machine_agrees_without_relock {o : OState} {i : Nat} (hI : Inv o) (hok : stepOK o i) :
+    ostepFixed o i = ostep o i :=
+  ostepFixed_eq_ostep hI hok
+
+/-- the witness of the finding, on the fixed machine: the second `lock()` blocks, the run is stuck, its split path IS a
+path of the LTS and ends in a deadlock state (compare `single_simcall_is_atomic_split_counterexample`) -/
+example : (orunFixed (initO relockProg) [0, 0]).map
+      (fun r => (r.1.s.actors.map (·.obs), [ostuck r.1, isDeadlock r.1.s, (execPath (initState relockProg) r.2).isSome], r.2))
+    = some ([[1]], [true, true, true], [(0, 0), (0, 0)]) := by decide
+
+/-- … and an ordinary history (hand-off) is executed identically by the fixed machine -/
+example : (orunFixed (initO abba) [0, 0, 1, 0]).map (fun r => (ostuck r.1, r.2))
+    = (orun (initO abba) [0, 0, 1, 0]).map (fun r => (ostuck r.1, r.2)) := by decide
 
 end SgVerif.C14
